@@ -29,6 +29,32 @@ theorem run_replicate_pow (p : Rat) (n : Nat) (f : Factors) (s : String) :
   | succ n ih =>
     rw [List.replicate_succ, run_cons, ih, expOf_step_pow, Rat.pow_succ, Rat.mul_assoc, Rat.mul_comm (powOperand p)]
 
+/-- `Fraction(a, b)` has a denominator of at most `b` (and 1 when `b = 0`, Lean's `a / 0 = 0`) -/
+theorem den_div_le (a : Int) (b B : Nat) (hb : b ≤ B) (hB : 1 ≤ B) : ((a : Rat) / ((b : Nat) : Rat)).den ≤ B := by
+  have h : ((a : Rat) / ((b : Nat) : Rat)) = Rat.divInt a (b : Int) := by
+    rw [Rat.divInt_eq_div]; rfl
+  rw [h, Rat.den_divInt]
+  split
+  · exact hB
+  · exact Nat.le_trans (Nat.div_le_self _ _) (by simpa using hb)
+
+/-- loop invariant of `Fraction.limit_denominator`: both convergent denominators stay within the bound -/
+theorem ldLoop_inv (B : Nat) (fuel : Nat) (st : LdState) (h0 : st.q0 ≤ B) (h1 : st.q1 ≤ B) :
+    (ldLoop B fuel st).q0 ≤ B ∧ (ldLoop B fuel st).q1 ≤ B := by
+  induction fuel generalizing st with
+  | zero => exact ⟨h0, h1⟩
+  | succ n ih =>
+    simp only [ldLoop]
+    split
+    · exact ⟨h0, h1⟩
+    · split
+      · exact ⟨h0, h1⟩
+      · next hq =>
+        apply ih
+        · exact h1
+        · show (↑st.q0 + st.n / st.d * ↑st.q1 : Int).toNat ≤ B
+          omega
+
 /-- every symbol of the list is an ordinary unit symbol -/
 def FOrd (f : Factors) : Prop := ∀ p ∈ f, Ordinary p.1
 
